@@ -242,6 +242,8 @@ def impl_projection(obs):
             kv = dict(x.split("=", 1) for x in t[1:] if "=" in x)
             if (kv["k"], kv["side"], kv["file"]) in have:
                 out.append("torn k=%s side=%s file=%s light=%s" % (kv["k"], kv["side"], kv["file"], kv["light"]))
+        elif t and t[0] == "dirs":
+            out.append(o)
     return out + coarse_steps(obs)
 
 
